@@ -104,7 +104,7 @@ def cases(ctx, tier):
             out.append(('mpz_get_str %s %s' % (hx(b), hx(v)), 'get_str-round'))
     # mpn_set_str through the as-coded model: digit counts around every multiple of chars_per_limb, around the basecase / divide and
     # conquer / precompute thresholds, high halves that are all zero (below the leading digit), all digits maximal
-    for b in ([3, 7, 10, 10, 36, 62, 2, 16, 32] if quick else list(range(2, 63))):
+    for b in ([3, 7, 10, 10, 36, 62, 2, 16, 32] if quick else [2, 3, 5, 7, 10, 11, 16, 17, 26, 32, 36, 37, 49, 60, 62]):
         for nd in sorted(set([1, 2, 18, 19, 20, 38, 39, 40, 41, sdc - 1, sdc, sdc + 1, sdc + 20, spre - 1, spre, spre + 1] + ([2 * spre + 3] if b == 10 or not quick else []) + ([] if quick else [rng.randrange(1, 3 * spre)]))):
             if nd < 1: continue
             if quick and nd > sdc + 20 and b not in (10, 7): continue
